@@ -78,7 +78,9 @@ def load(rows):
         import datetime as _dt
         us = _dt.timedelta(microseconds=1)
         cur.executemany("INSERT INTO t (id,a,b,c,s,u,d,flag,f,g,dd,m,iv) VALUES (%s,%s,%s,%s,%s,%s,%s,%s,%s,%s,%s,%s,%s)",
-                        [tuple(sqlite_env._adapt(_to_stored(r.get(k))) for k in sqlite_env.COLS) +
+                        [tuple(sqlite_env._adapt(_to_stored(r.get(k))) if k != "g" or r.get(k) is None
+                               else r[k].replace("-", "")          # UUIDField keeps 32 hex digits here
+                               for k in sqlite_env.COLS) +
                          (None if r.get("iv") is None else r["iv"] // us,)      # DurationField: microseconds
                          for r in rows])
 
@@ -172,6 +174,7 @@ def run(ctx):
         p_ops.bool_cmp_atoms = True
         SC.bool_operand_lane(ctx, ctx.rng("boolops"), select, findings.django_semantic_triggers, extra_case=case_extra, profile=p_ops)
         SC.in_list_shape_lane(ctx, ctx.rng("inshape"), select, findings.django_semantic_triggers, extra_case=case_extra, profile=p)
+        SC.nullable_key_lane(ctx, ctx.rng("nullkey"), select, findings.django_semantic_triggers, extra_case=case_extra)
         SC.int_vs_decimal_lane(ctx, ctx.rng("intdec"), select, findings.django_semantic_triggers, extra_case=case_extra, profile=p)
         SC.math_of_literal_lane(ctx, ctx.rng("mathlit"), select, findings.django_semantic_triggers, extra_case=case_extra, profile=p)
         SC.neutral_boolean_lane(ctx, ctx.rng("neutral"), select, findings.django_semantic_triggers, extra_case=case_extra, profile=p)
